@@ -950,16 +950,20 @@ def check_property(prop, tier="quick", seed=0):
             continue
         # evidence from the first seed's run
         nclauses, names = clause_count(A, prop)
-        okf = [f for f in an["functions"] if f["success"]]
-        obligations += len(an["functions"]) + nclauses
+        # counting rule: one obligation per function under contract that serves this property (its Verus query: body against
+        # contract, including every safety condition) + one per tagged contract clause of this property. Functions of the
+        # unit that serve other properties only, lemmas and spec functions are listed under verus_queries but not counted.
+        fn_items_prop = [i["id"] for i in A.items if i["kind"] == "fn" and prop in (i["props"] + i["safety"])]
+        failing_items = {iid for f in fails_here for iid in f["items"]}
+        obligations += len(fn_items_prop) + nclauses
         nfail_clauses = len({(tuple(f["items"]), tuple(f["tags"]), f["message"], json.dumps(f["where"][:1])) for f in fails_here})
-        discharged += len(okf) + max(0, nclauses - nfail_clauses)
+        discharged += len([i for i in fn_items_prop if i not in failing_items]) + max(0, nclauses - nfail_clauses)
         solver_ms += sum(f["ms"] for f in an["functions"])
         for f in an["functions"]:
             functions.append({"unit": u, "function": f["function"], "ms": round(f["ms"], 2), "rlimit": f["rlimit"],
                               "success": f["success"], "backend": "verus/z3"})
         for i in A.items:
-            if i["kind"] == "fn":
+            if i["kind"] == "fn" and prop in (i["props"] + i["safety"]):
                 fuc.append({"unit": u, "file": i["file"], "item": i["path"], "lines": i.get("body_lines"), "sha256_body": i.get("sha256"),
                             "serves": i["props"], "closures_annotated": i.get("n_closures_annotated"), "loops_annotated": i.get("n_loops_annotated")})
         trusted += [f"[{u}] {t}" for t in r["trusted"]]
@@ -1072,7 +1076,7 @@ def check_property(prop, tier="quick", seed=0):
             "kani": kani_ev,
             "kani_twins": twin_ev,
             "trusted_base": sorted(set(trusted)),
-            "obligation_counting_rule": "one per Verus function/lemma query (each carries all its safety obligations: overflow, div-by-zero, unwrap/index preconditions, callee preconditions) plus one per contract line tagged with this property",
+            "obligation_counting_rule": "one per function under contract that serves this property (its Verus query carries all its safety obligations: overflow, div-by-zero, unwrap/index preconditions, callee preconditions) plus one per contract line tagged with this property; other functions, lemmas and spec functions of the same units appear under verus_queries but are not counted",
             "units": units,
             "functions_under_contract": fuc,
             "verus_queries": functions,
